@@ -12,9 +12,10 @@ ASG = ["=", "+=", "-=", "*=", "|=", "&=", "^=", "<<=", ">>="]
 
 
 class CGen:
-    def __init__(self, rng, lang="C", stats=None):
+    def __init__(self, rng, lang="C", stats=None, div_deref=True):
         self.r = rng
         self.lang = lang
+        self.div_deref = div_deref
         self.stats = stats if stats is not None else {}
         self.nfun = 0
         self.out = []
@@ -51,7 +52,7 @@ class CGen:
             a, b = self.expr(loc, d - 1), self.expr(loc, d - 1)
             self.hit("e:bin")
             if op in ("/", "%"):
-                if self.lang != "JAVA" and r.random() < 0.5:
+                if self.lang != "JAVA" and self.div_deref and r.random() < 0.5:
                     self.hit("e:div-deref")
                     return "%s %s * p" % (a, op)          # `a / *p`: must not become a comment opener
                 b = "( %s | 1 )" % b
@@ -61,7 +62,7 @@ class CGen:
                 return "( ( %s != 0 %s %s != 0 ) ? 1 : 0 )" % (a, op, b)
             if self.lang == "JAVA" and op in ("<", ">", "<=", ">=", "==", "!="):
                 return "( %s %s %s ? 1 : 0 )" % (self.paren(a), op, self.paren(b))
-            if r.random() < 0.25 and op in (("+", "-", "&", "*", "<", ">", "|", "^", "==") if self.lang != "JAVA" else ("+", "-", "&", "*", "|", "^")):
+            if r.random() < (0.6 if op in ("+", "-") else 0.25) and op in (("+", "-", "&", "*", "<", ">", "|", "^", "==") if self.lang != "JAVA" else ("+", "-", "&", "*", "|", "^")):
                 # an operator directly followed by a prefix operator: only blanks keep `- -x`, `+ +x`, `& &g0`... apart
                 self.hit("e:op-prefix-op")
                 pre = r.choice(["-", "+", "~"] + (["!"] if self.lang != "JAVA" else []) + ([op, "++", "--", "++", "--"] if op in ("+", "-") else []))
@@ -81,6 +82,9 @@ class CGen:
             c = self.expr(loc, d - 1)
             if self.lang == "JAVA":
                 c = "%s != 0" % self.paren(c)
+            if self.lang == "CPP" and r.random() < 0.25:
+                self.hit("e:ternary-global-scope")
+                return "( %s ? %s : :: g0 )" % (c, self.expr(loc, d - 1))          # `: ::g0` must not become `:::g0`
             return "( %s ? %s : %s )" % (c, self.expr(loc, d - 1), self.expr(loc, d - 1))
         if k < 0.9 and self.nfun > 0:
             self.hit("e:call")
@@ -339,6 +343,7 @@ def layout(lines, rng, style="random"):
     return "\n".join(out) + "\n"
 
 
-def program(rng, lang="C", stats=None, style="random"):
-    g = CGen(rng, lang, stats)
+def program(rng, lang="C", stats=None, style="random", div_deref=True):
+    """div_deref=False: no `a / *p` (its fusion into a comment opener is a known finding that would mask every other fusion of the same run)"""
+    g = CGen(rng, lang, stats, div_deref)
     return layout(g.unit(), rng, style)
